@@ -94,7 +94,11 @@ def _compare(t, r, dialect, name):
             probs.append(("sql", f"result fails to generate: {type(e).__name__}"))
             continue
         if a != b:
-            probs.append(("sql", f"{a!r} vs {b!r}"))
+            # an arg holding [] that the result lacks (serde drops empty lists) is named in the signature, so that any other
+            # cause of differing SQL is a different finding
+            lost = sorted({f"{type(n).__name__}.{k}" for n in t.walk() for k, v in n.args.items() if v == [] and type(v) is list}
+                          - {f"{type(n).__name__}.{k}" for n in r.walk() for k, v in n.args.items() if v == [] and type(v) is list})
+            probs.append(("sql", (f"[emptylist:{'+'.join(lost)}] " if lost else "") + f"{a!r} vs {b!r}"))
     tp = fpm.tree_problems(r)
     if tp:
         probs.append(("invariant", tp[0]))
@@ -124,8 +128,8 @@ def _diff_hint(t, r):
         ta, tb = a.type, b.type
         if (ta is None or ta is a) != (tb is None or tb is b) or (ta is not None and ta is not a and tb is not None and fpm.fingerprint(ta, "serde") != fpm.fingerprint(tb, "serde")):
             return f"{type(a).__name__}.type {ta!r:.40} vs {tb!r:.40}"
-        ka = {k: v for k, v in a.args.items() if v is not None and v != []}
-        kb = {k: v for k, v in b.args.items() if v is not None and v != []}
+        ka = {k: v for k, v in a.args.items() if v is not None}
+        kb = {k: v for k, v in b.args.items() if v is not None}
         if set(ka) != set(kb):
             return f"{type(a).__name__} args {sorted(ka)} vs {sorted(kb)}"
         for k in ka:
@@ -173,6 +177,15 @@ def decorated():
     t3 = exp.select("a").from_("t").where(exp.column("a").isin(1, 2)).limit(5)
     t3.set("distinct", exp.Distinct())
     out.append(("built", t3))
+    # every member of the DType enum as the target of a cast: bare, with a parameter, nested in ARRAY / as a struct field;
+    # user-defined types carry their name in `kind`
+    for m in exp.DType:
+        kw = {"kind": "my_type"} if m is exp.DType.USERDEFINED else {}
+        bare = exp.DataType(this=m, **kw)
+        param = exp.DataType(this=m, expressions=[exp.DataTypeParam(this=exp.Literal.number(10))], **kw)
+        nested = exp.DataType(this=exp.DType.ARRAY, expressions=[exp.DataType(this=m, **kw)], nested=True)
+        sel = exp.select(exp.cast(exp.column("a"), bare), exp.cast(exp.column("b"), param), exp.Cast(this=exp.column("c"), to=nested)).from_("t")
+        out.append((f"dtype:{m.name}", sel))
     t4 = sqlglot.parse_one("SELECT 1")
     t4.selects[0].replace(exp.Literal.number(2))
     t4.add_comments(["only"])
@@ -190,6 +203,8 @@ def worker(shard, nshards, plan, quick):
         import re
 
         shape = re.sub(r"'[^']*'|\"[^\"]*\"|\d+", "_", msg)[:120] if code in ("fingerprint", "invariant") else ""
+        if code == "sql" and msg.startswith("[emptylist:"):
+            shape = msg[1:msg.index("]")]
         key = (code, name.split(">")[-1] if code != "shared" else name, shape)
         v = res["viol"].get(key)
         if v is None:
@@ -238,17 +253,24 @@ def worker(shard, nshards, plan, quick):
                         record("dump_fixpoint", "dump", phase, dialect, sql_text, "dump(load(json(dump(t)))) != dump(t)")
                 except Exception as e:
                     record("exception", "json", phase, dialect, sql_text, f"{type(e).__name__}: {str(e)[:80]}")
+                alone = {}   # basic transition -> codes it already produced on this state (compositions do not repeat them)
                 for name, f in trans:
                     res["transitions"] += 1
+                    parts = name.split(">")
+                    inherited = set().union(*(alone.get(p_, set()) for p_ in parts)) if len(parts) > 1 else set()
                     try:
                         r = f(t)
                     except RecursionError:
                         continue
                     except Exception as e:
-                        record("exception", name, phase, dialect, sql_text, f"{type(e).__name__}: {str(e)[:80]}")
+                        if "exception" not in inherited:
+                            record("exception", name, phase, dialect, sql_text, f"{type(e).__name__}: {str(e)[:80]}")
+                        alone.setdefault(name, set()).add("exception")
                         continue
                     for code, msg in compare(t, r, dialect, name):
-                        record(code, name, phase, dialect, sql_text, msg)
+                        alone.setdefault(name, set()).add(code)
+                        if code not in inherited:
+                            record(code, name, phase, dialect, sql_text, msg)
             if len(res["samples"]) < 2 and idx % 397 == shard:
                 res["samples"].append({"dialect": dialect or "base", "sql": sql_text, "phases": [p for p, _ in trees]})
     res["viol"] = list(res["viol"].items())
@@ -264,6 +286,13 @@ def run(ctx: Ctx) -> None:
         if not quick:
             plan.append((d, [s for c, s, t in statements(d, 2) if c == 2][::11]))
     plan.append(("", corpus.identity_sql()))
+    # every statement of the repository's dialect tests, parsed by its own dialect (node classes and arg value kinds only
+    # dialect-specific syntax produces: user-defined types, COPY / CREATE properties, hints, JSON paths...)
+    by_d = {}
+    for d, sql in corpus.dialect_test_sql():
+        by_d.setdefault(d, []).append(sql)
+    for d, sqls in sorted(by_d.items()):
+        plan.append((d, sqls))
     for fn in ("optimizer.sql", "qualify_columns.sql", "annotate_types.sql", "annotate_functions.sql", "simplify.sql"):
         for sql, d in corpus.fixture_inputs(fn):
             plan.append((d or "", [sql]))
@@ -290,8 +319,8 @@ def run(ctx: Ctx) -> None:
             "traces_validated_against_impl": res["transitions"] + deco_res["transitions"],
             "evaluations": res["transitions"] + deco_res["transitions"],
             "distinct_nontrivial": res["nontrivial"] + deco_res["nontrivial"],
-            "rule": "states = trees (G_core k<=1 per dialect, identity.sql, optimizer/annotate fixtures) as parsed / annotated / qualified / "
-                    "qualified+annotated, plus hand-decorated trees; transitions = dump+load, JSON text round trip, pickle 2..5, copy, "
+            "rule": "states = trees (G_core k<=1 per dialect, identity.sql, optimizer/annotate fixtures, every statement of tests/dialects/*.py in its own dialect) as parsed / annotated / qualified / "
+                    "qualified+annotated, plus hand-decorated trees and a cast to every DType member (bare / parameterised / nested); transitions = dump+load, JSON text round trip, pickle 2..5, copy, "
                     "deepcopy and 7 compositions; every transition must return an equal state (==, fingerprint with public types, "
                     "comments, meta; same SQL; tree invariants; no shared node). non-trivial = states carrying comments, meta or types.",
             "node_classes_reached": len(reached),
@@ -300,7 +329,7 @@ def run(ctx: Ctx) -> None:
             "exhaustive": True,
             "samples": res["samples"][:4] + [{"decorated_trees": [n for n, _ in decorated()]}],
         },
-        ["a missing arg, None and [] are one thing (serde drops empty values by design)",
+        ["a missing arg and None are one thing (serde transports no None); an empty list must come back as an empty list",
          "types are compared through the public .type (for casts that is `_type or to`)"],
     )
 
